@@ -8,6 +8,8 @@ import os
 from .. import kspace, space
 from ..common import Run, chunked, rotate, run_pool
 
+NPARTS = 16
+
 
 def kernel_specs(progs, stride=1, offset=0):
     specs = []
@@ -65,6 +67,26 @@ def run(tier, seed):
     rspecs = kernel_specs(rprogs, stride=3 if tier == "quick" else 1, offset=seed)
     totals.append(nx_phase(run, rspecs, {"cap": 4, "deviations": False, "with_ac": False, "rounding": True},
                            {"TENSORA_VERIF_INITIAL_CAPACITY": "1"}, "rounding"))
+    # (b) printers: IR trees through the real ir_to_c / ir_to_llvm, gcc and MCJIT vs the abstract machine
+    from ..txwork import printer_tree_count
+
+    ntrees = printer_tree_count(tier)
+    parts = max(NPARTS, ntrees // 1500)
+    tunits = [{"tier": tier, "part": k, "parts": parts, "tag": f"p{k}"} for k in range(parts)]
+    print(f"[C06] (b) printers: {ntrees} IR trees in {parts} batches", flush=True)
+    tree_states = tree_valid = 0
+    for status, res in run_pool("vx.txwork", "work_printers", rotate(tunits, seed)):
+        if status != "ok":
+            run.report({"signature": {"kind": status}, "what": f"worker failed: {res}", "case": {}})
+            continue
+        tree_states += res["states"]
+        tree_valid += res["validated"]
+        for k, v in res["stats"].items():
+            run.counters[f"trees: {k}"] += v
+        if res["sample"]:
+            run.sample(res["sample"], limit=4)
+        run.report_all(res["findings"])
+    run.coverage["ir_trees_printed"] = ntrees
     cases = sum(t["cases"] for t in totals)
     validated = sum(t["validated"] for t in totals)
     kernels = sum(t["kernels"] for t in totals)
@@ -78,8 +100,8 @@ def run(tier, seed):
     ]
     run.coverage["nx_stride_beyond_base_space"] = stride
     return run.finish(
-        states=cases, transitions=cases * 5, traces_validated=validated,
-        evaluations=cases, distinct_nontrivial=validated // 3,
+        states=cases + tree_states, transitions=cases * 5 + tree_states, traces_validated=validated + tree_valid,
+        evaluations=cases + tree_states, distinct_nontrivial=validated // 3 + tree_valid // 2,
         rule="(a) every kernel of the L<=2,S<=3 program space x all formats, plus every "
              f"{stride}th kernel of the wider space: evaluate/assemble/compute printed by the real ir_to_c and "
              "ir_to_llvm, compiled by gcc (ASan+UBSan), clang-14 (ASan) and MCJIT (compile_module), driven through "
@@ -87,7 +109,11 @@ def run(tier, seed):
              "cap; each backend's return values and pos/crd/vals dumps must equal the abstract machine's, bit for "
              "bit; inputs must be unmodified; every returned array is freed once. states = scripted cases; "
              "traces_validated = (case, backend) pairs that agreed with the AM; non-trivial = cases on which all "
-             "three backends ran",
+             "three backends ran. (b) every IR tree of the printer space (all depth<=1 expressions, all <=3(4)-leaf "
+             "+ - * trees under every int/float typing, comparison/min/max/and/or/bool-to-int nests, assignments incl. "
+             "compound-assignment shapes, blocks/branches/loops to nesting depth 2) wrapped in a function, printed by "
+             "ir_to_c and ir_to_llvm, compiled by gcc and MCJIT and run on all 128 environments on which the "
+             "abstract machine runs it safely: final arrays must be bit-identical",
         exhaustive=True,
         extra={"kernels_compiled": kernels},
     )
